@@ -39,6 +39,11 @@ so every distinct C source is compiled by exactly one worker):
               Oracle: (qa,qb,qc) = (qx,qy,0) . Rz(phi) Ry(theta) Rz(psi) Rx(dphi) Ry(dtheta) Rz(dpsi) (documented view
               rotation and jitter about the particle axes), mesh weights w*|cos(dtheta)|,
               the closed form evaluated in numpy, C01 reference mean.
+  P "placement": EVERY table made of r, b and a non-empty subset of {theta, phi, psi} with the angles in every order and
+              at every position relative to r and b (105 tables) x {Iqac, Iqabc} in the C flavour, plus the Python
+              flavour: each must be refused at load/build OR, if accepted, evaluate its 2-D formula after the
+              documented rotation with the angles read by name (default view, non-default view, jitter on every
+              angle present) - never accepted-and-different.
   S "same-name": two / three DIFFERENT definitions written to files with the SAME basename in different
               directories (flavour combinations c/c, c/py, py/c, py/py, c/py/c; modification times equal /
               increasing / decreasing), loaded and evaluated in ONE fresh process (zygote) in the orders
@@ -332,6 +337,11 @@ def cases(ctx):
             for vtype in ("volume", ""):
                 for vpos in (0, 1, 2):
                     out.append({"kind": "oriented", "sym": sym, "vec": vec, "vtype": vtype, "vpos": vpos})
+    # ---- P: every placement of the orientation parameters in a small table
+    for order in placements():
+        for fn2d in ("ac", "abc"):
+            out.append({"kind": "placement", "order": order, "sym": fn2d, "flavour": "c"})
+        out.append({"kind": "placement", "order": order, "sym": None, "flavour": "py"})
     # ---- S: files with the same basename
     for flav in (["c", "c"], ["c", "py"], ["py", "c"], ["py", "py"], ["c", "py", "c"]):
         for mt in ("equal", "increasing", "decreasing"):
@@ -401,6 +411,8 @@ def run_case(case, ctx):
         return _run_py_oriented(case, ctx)
     if case["kind"] == "oriented":
         return _run_oriented(case, ctx)
+    if case["kind"] == "placement":
+        return _run_placement(case, ctx)
     if case["kind"] == "same-name":
         return _run_same_name(case, ctx)
     raise HarnessError("unknown case kind %r" % case["kind"])
@@ -993,6 +1005,122 @@ def _run_oriented(case, ctx):
 
 
 # ------------------------------------------------------------------------------------------------
+# P: placements of the orientation parameters
+
+def placements():
+    """
+    EVERY table made of r (volume), b (plain) - in this order - and a non-empty subset of {theta, phi, psi}, the
+    angles in every order and at every position relative to r and b: 9 + 36 + 60 = 105 tables (angles first /
+    in the middle / last, adjacent or separated, psi without phi, phi without theta, psi at index 0, ...).
+    """
+    out = []
+    for k in (1, 2, 3):
+        for subset in itertools.combinations(["theta", "phi", "psi"], k):
+            for perm in itertools.permutations(subset):
+                for slots in itertools.combinations(range(k + 2), k):
+                    angles, rest, row = list(perm), ["r", "b"], []
+                    for i in range(k + 2):
+                        row.append(angles.pop(0) if i in slots else rest.pop(0))
+                    out.append(row)
+    return out
+
+
+PLACEMENT_VIEW = {"theta": 60.0, "phi": -35.0, "psi": 115.0}
+
+
+def placement_spec(order, sym):
+    entries = {"r": {"name": "r", "type": "volume", "default": 1.1, "lo": 0.0, "hi": INF},
+               "b": {"name": "b", "type": "", "default": 1.2, "lo": -INF, "hi": INF}}
+    for nm, d in (("theta", 30.0), ("phi", 20.0), ("psi", 10.0)):
+        entries[nm] = {"name": nm, "units": "degrees", "type": "orientation", "default": d, "lo": -360.0, "hi": 360.0}
+    ref = make_oriented({"sym": sym or "ac", "vec": None})      # Iq, Iqac / Iqabc and form_volume over (r, b)
+    return dict(ref, pars=[dict(entries[nm]) for nm in order], sym=sym or "ac")
+
+
+def _run_placement(case, ctx):
+    """
+    A table is either refused when the definition is loaded / built, or - if accepted - the model evaluates the
+    definition's 2-D formula after the documented rotation with the view (and jitter) angles read BY NAME from the
+    table; angles the table does not have are zero.  Accepted-and-different is the violation.
+    """
+    import os
+    from sasmodels import core
+    from sasmodels.direct_model import call_kernel
+    r = R()
+    order, sym, flavour = case["order"], case["sym"], case["flavour"]
+    spec = placement_spec(order, sym)
+    name = "vp%s" % case_id(case)
+    pattern = ",".join(order)
+    fk = {"clause": "illformed-accepted", "kind": "orientation-placement", "flavour": flavour, "table": pattern,
+          "function": {"ac": "Iqac", "abc": "Iqabc", None: "Iq"}[sym]}
+    r.branch("placement:" + flavour)
+    if flavour == "c":
+        path = write_oriented(spec, ctx.scratch, name)
+    else:
+        args = [p["name"] for p in spec["pars"] if p["type"] != "orientation"]
+        path = os.path.join(ctx.scratch, name + ".py")
+        with open(path, "w") as fh:
+            fh.write(G.HEADER % {"doc": "orientation placement, Python flavour", "name": name}
+                     + G.table_source(G.par_rows(spec))
+                     + "def Iq(%s):\n    return %s\nIq.vectorized = True\n" % (", ".join(["q"] + args), G.render(spec["iq"], "py"))
+                     + "def form_volume(r):\n    return %s\n" % G.render(spec["volume"], "py"))
+    wellformed = (flavour == "c" and ((sym == "ac" and order == ["r", "b", "theta", "phi"])
+                                      or (sym == "abc" and order == ["r", "b", "theta", "phi", "psi"])))
+    try:
+        with warnings.catch_warnings():
+            warnings.simplefilter("ignore")
+            model = core.load_model(path, dtype="double", platform="dll")
+    except Exception as exc:  # noqa
+        if wellformed:
+            return r.fail("well-formed oriented definition (table %s, %s) was refused: %r\n%s"
+                          % (pattern, fk["function"], exc, open(path).read()),
+                          {"clause": "build", "feature": "placement-wellformed", "table": pattern}, branches=["build-failed"])
+        return r.ok(nt=True, outcome="placement-refused:%s" % type(exc).__name__, branches=["placement-refused"])
+    # accepted: it must compute the definition
+    cpars = {p.name: p for p in model.info.parameters.call_parameters}
+    Q = np.array(Q2O)
+    kern = model.make_kernel([Q[:, 0].copy(), Q[:, 1].copy()])
+    present = [a for a in ("theta", "phi", "psi") if a in order]
+    bad = []
+    for view, jit in ((False, False), (True, False), (True, True)):
+        vals = {nm: float(p["default"]) for nm, p in G.call_names(spec)}
+        if view:
+            for a in present:
+                vals[a] = PLACEMENT_VIEW[a]
+        pars = dict(vals, scale=SCALE, background=BACKGROUND)
+        disp = {}
+        if jit:
+            for a in present:
+                t, n, w = JITTER[a]
+                pars[a + "_pd"], pars[a + "_pd_n"], pars[a + "_pd_type"] = w, n, t
+                disp["d" + a] = refmodel.par_dist(cpars[a], t, n, w, 3.0, vals[a])
+        pspec = dict(spec, sym=("abc" if sym == "abc" else "ac"))
+        if flavour == "py":
+            ref = G.mean_from_points(lambda pt: oriented_point(pspec, pt, np.sqrt(Q[:, 0] ** 2 + Q[:, 1] ** 2), "1d"),
+                                     len(Q), dict(vals, scale=SCALE, background=BACKGROUND), {}, 0.0)
+        else:
+            ref = G.mean_from_points(lambda pt: oriented_point(pspec, dict({"psi": 0.0, "theta": 0.0, "phi": 0.0}, **pt), Q, "2d"),
+                                     len(Q), dict(vals, scale=SCALE, background=BACKGROUND), disp, 0.0)
+        try:
+            with np.errstate(all="ignore"):
+                got = call_kernel(kern, dict(pars), cutoff=0.0)
+        except Exception as exc:  # noqa
+            bad.append("call 2-d pars=%s raised %r" % (pars, exc))
+            continue
+        ok, err = refmodel.close(got, ref["I"], ref["mag"], rtol=1e-11)
+        if not ok:
+            bad.append("call 2-d q=%s pars=%s:\n    model   %s\n    formula %s" % (Q2O, pars, np.asarray(got), ref["I"]))
+    if bad:
+        return r.fail("definition with parameter table [%s] and %s (%s flavour) was ACCEPTED, built and evaluated, but does "
+                      "not compute its formula after the documented rotation (angles taken by name):\n  %s\n%s"
+                      % (pattern, fk["function"], flavour, "\n  ".join(bad), open(path).read()), fk,
+                      branches=["placement-accepted"])
+    if not wellformed:
+        r.branch("placement-accepted-unusual")
+    return r.ok(nt=True, outcome="placement-accepted-correct", trans=3, branches=["placement-accepted"])
+
+
+# ------------------------------------------------------------------------------------------------
 # S: different files with the same basename
 
 def _preload():
@@ -1126,6 +1254,10 @@ def finish(ctx, report):
         report.require("dispersed-vector-element", 20, "dispersity on an element of a vector parameter")
         report.require("dim:2d", 100, "2-D q")
         report.require("reff-mode", 50, "effective-radius modes")
+    report.require("placement:c", 210, "orientation placements, C flavour (105 tables x Iqac/Iqabc)")
+    report.require("placement:py", 105, "orientation placements, Python flavour")
+    report.require("placement-refused", 250, "ill-placed orientation parameters refused")
+    report.require("placement-accepted", 2, "well-placed orientation parameters accepted and evaluated")
     report.require("family:oriented", 50, "oriented C definitions")
     report.require("oriented:vector-before-angles", 48, "oriented definitions with a vector parameter before theta")
     report.require("oriented:ac", 25, "Iqac definitions")
